@@ -14,7 +14,7 @@ def run(ctx):
         functions=['Ipv4Header::from_bytes', 'Ipv4Header::serialize', 'UdpHeader::from_bytes_ipv4', 'TcpHeader::from_bytes', 'ArpPacket::from_bytes',
                    'DnsMessage::from_bytes', 'DnsQuestion::query_name', 'DhcpMessage::from_bytes', 'dhcp_parsing::MessageType::try_from', 'BytesExt::*'],
         bounds='arbitrary byte strings with symbolic length: IPv4 0..=24, UDP 0..=12 (+ arbitrary claimed packet length), TCP 0..=24 (+ arbitrary '
-               'claimed packet length incl. > 65535), ARP 0..=30, DNS 0..=29 (arbitrary rdlength claim), DHCP 0..=36; query_name on a 1-byte name; '
+               'claimed packet length incl. > 65535), ARP 0..=30, DNS 0..=29 (arbitrary rdlength claim), DHCP 0..=34; query_name on a 1-byte name; '
                'unwinding assertions on',
         outside='inputs longer than the bounds (the decoders have no length-dependent behaviour beyond their fixed header, the DNS/DHCP string loops and '
                 'the rdata loop); the NDL text parser (nom/HashMap/format!/file I/O: no encoding within reach); "the simulation keeps running" (tokio runtime)',
